@@ -61,16 +61,6 @@ Proof. repeat split; reflexivity. Qed.
 
 (* ================================================================ small facts *)
 
-Lemma expand1_neg_some : forall lvl t, lvl < 0 -> (forall cat c, t = Ch cat c -> has_macro cat = false \/ cat = 1 \/ cat = 2) ->
-  exists t', expand1 lvl t = Some t'.
-Proof.
-  intros lvl t Hl Hc. destruct t as [cat c|k e]; cbn [expand1].
-  - destruct (cat =? 1) eqn:E1; [eauto|]. destruct (cat =? 2) eqn:E2; [eauto|].
-    destruct (Hc cat c eq_refl) as [H|[H|H]]; [rewrite H; eauto| lia | lia].
-  - destruct e; [eauto|]. replace (0 <=? lvl) with false by (symmetry; apply Z.leb_gt; lia).
-    rewrite andb_false_r. eauto.
-Qed.
-
 (* ================================================================ M6 (numeric part): the enable level is restored *)
 
 Ltac break_match :=
@@ -383,10 +373,11 @@ Theorem read_integer_register : forall sr k e rest lvl0,
 Proof.
   intros sr k e rest lvl0 Hl Hp. unfold read_integer.
   assert (He : expand1 (lvl0 - 1) (Cs k e) = Some (Cs k true)).
-  { destruct e; cbn [expand1]; [reflexivity|]. replace (0 <=? lvl0 - 1) with false by (symmetry; apply Z.leb_gt; lia).
-    rewrite andb_false_r. reflexivity. }
+  { assert (Hlt : (0 <=? lvl0 - 1) = false) by (apply Z.leb_gt; lia).
+    destruct k; try discriminate; destruct e; cbn [expand1 is_param andb]; rewrite ?Hlt; reflexivity. }
   rewrite (read_signs_print (lvl0 - 1) sr (Cs k e) (Cs k true) rest He I).
-  cbn [expand1]. rewrite Hp. replace (lvl0 - 1 + 1) with lvl0 by lia. reflexivity.
+  assert (He2 : expand1 (lvl0 - 1) (Cs k true) = Some (Cs k true)) by (destruct k; reflexivity).
+  rewrite He2, Hp. replace (lvl0 - 1 + 1) with lvl0 by lia. reflexivity.
 Qed.
 
 (* the known finding, on the faithful Model: a decimal constant followed by a register is multiplied by it *)
@@ -412,7 +403,8 @@ Proof.
   intros lvl t t' E. destruct t as [cat c|k e]; cbn [expand1] in E.
   - destruct (cat =? 1); [inversion E; reflexivity|]. destruct (cat =? 2); [inversion E; reflexivity|].
     destruct (has_macro cat) eqn:Hm; [discriminate|]. inversion E; subst. apply expand1_plain, Hm.
-  - destruct e; [inversion E; reflexivity|]. destruct (is_param k && (0 <=? lvl)); [discriminate|]. inversion E. reflexivity.
+  - destruct k; destruct e; try discriminate; try (inversion E; reflexivity);
+      (destruct (_ && (0 <=? lvl)); [discriminate|]); inversion E; reflexivity.
 Qed.
 
 Lemma peek_idem : forall lvl s, peek lvl (peek lvl s) = peek lvl s.
